@@ -4,6 +4,7 @@
 package gen
 
 import (
+	"fmt"
 	"math/rand"
 	"sort"
 
@@ -21,6 +22,8 @@ type Call struct {
 	Veto   [][]any         `json:"veto"`
 	Nest   []NestAt        `json:"nest"`
 	Panic  [][]any         `json:"panic,omitempty"`
+	Stall  [][]any         `json:"stall,omitempty"`
+	Probe  bool            `json:"probe,omitempty"`
 }
 
 type NestAt struct {
@@ -278,4 +281,72 @@ func SortedNames(sch am.Schema) am.S {
 	}
 	sort.Strings(n)
 	return n
+}
+
+// FaultCalls: every faulty call (one or two handlers that panic with a string,
+// panic with an error value, or stall beyond HandlerTimeout) is followed by a
+// fault-free probe call.
+func FaultCalls(r *rand.Rand, c *Case, n int) []Call {
+	var calls []Call
+	base := RandCalls(r, c, n, 0, 1)
+	for i := range base {
+		call := base[i]
+		call.Check = false
+		nf := 1
+		if r.Float64() < 0.25 {
+			nf = 2
+		}
+		for j := 0; j < nf && len(c.Binds) > 0; j++ {
+			b := r.Intn(len(c.Binds))
+			bd := c.Binds[b]
+			all := append(append([]rec.HName{}, bd.Neg...), bd.Fin...)
+			if len(all) == 0 {
+				continue
+			}
+			// bias towards handlers that mention a called state or Exception
+			var h rec.HName
+			for t := 0; t < 6; t++ {
+				h = all[r.Intn(len(all))]
+				rel := false
+				for _, p := range h[1:] {
+					for _, cs := range call.Called {
+						if p == cs {
+							rel = true
+						}
+					}
+				}
+				if rel || (t >= 3 && len(h) > 1 && h[1] == "Exception") || t == 5 {
+					break
+				}
+			}
+			dup := false
+			for _, p := range call.Panic {
+				if p[0].(int) == b+1 && p[1].(rec.HName).Key() == h.Key() {
+					dup = true
+				}
+			}
+			for _, p := range call.Stall {
+				if p[0].(int) == b+1 && p[1].(rec.HName).Key() == h.Key() {
+					dup = true
+				}
+			}
+			if dup {
+				continue
+			}
+			switch r.Intn(5) {
+			case 0, 1:
+				call.Panic = append(call.Panic, []any{b + 1, h, fmt.Sprintf("boom-%d-%d", i, j)})
+			case 2:
+				call.Panic = append(call.Panic, []any{b + 1, h, fmt.Sprintf("err:bang-%d-%d", i, j)})
+			default:
+				call.Stall = append(call.Stall, []any{b + 1, h})
+			}
+		}
+		calls = append(calls, call)
+		probe := RandCalls(r, c, 1, 0, 1)[0]
+		probe.Check = false
+		probe.Probe = true
+		calls = append(calls, probe)
+	}
+	return calls
 }
